@@ -3,18 +3,24 @@
 //   seteuid,s:<name> | seteuid,i:<n>      seteuid("<name>") / seteuid(<n>)
 //   export,<oid>                          export_uid(<object oid>)
 //   load,<path>                           load_object(<path>)
+//   call,<path> | calla,<path> | tellroom,<path>   call_other(<path>, ..) / call_other(({ <path> }), ..) / tell_room(<path>, ..)
 //   clone,<newoid>,<path>                 clone_object(<path>, <newoid>)
 //   dest,<oid>                            destruct(<object oid>)
 //   reload,<oid>                          reload_object(<object oid>)
 //   via,<oid>,<op>                        evaluate((: run_op, <op> :) made by <oid>), then geteuid(that function)
+//   bind,<oid>,load,<path> | bind,<oid>,clone,<newoid>,<path>
+//                                         bind((: find_object, <path>, 1 :) / (: clone_object, <path>, <newoid> :), <oid>): the
+//                                         efun pointer made HERE is re-bound to <oid> (master valid_bind) and then does the
+//                                         load / clone of an ordinary `load` / `clone` op of <oid>; then geteuid(bound function)
 // Virtual objects: a load/clone of a path without a file asks master::compile_object, which (policy) clones a
 // template as `v<n>`; the driver renames that object to the virtual path.
 // Every op prints one result line `r ...`; create() prints `new <oid> <object name> <uid> <euid>`.
 #include "/include/vcommon.h"
 #define REG "/c20/reg"
-#define RESERVED ({ "m", "u1a", "u1b", "u1c", "u2a", "u2b", "u2c", "bba", "bbb", "bbc", "roota", "rootb", "rootc", "odda", "oddb", "oddc" })
+#define RESERVED ({ "m", "se", "u1a", "u1b", "u1c", "u2a", "u2b", "u2c", "bba", "bbb", "bbc", "roota", "rootb", "rootc", "odda", "oddb", "oddc" })
 
 string oid;
+mixed bound_fp;     // bind(): the bound efun pointer the next load / clone op of this object has to use
 
 string my_oid () { return oid; }
 string us (mixed u) { return stringp (u) ? "s:" + u : "0"; }
@@ -49,8 +55,19 @@ string do_op (string s);
 string run_op (string op) {
   string r;
   VL ("do " + oid + " " + op);
+  REG->push_actor (oid);
   r = do_op (op);
+  REG->pop_actor ();
   if (this_object ()) REG->snap ();   // after destruct(this_object()) the registry prints the snapshot
+  return r;
+}
+
+// bind(): run one load / clone op here, creating through the efun pointer somebody bound to this object
+string run_bound (string op, mixed f) {
+  string r;
+  bound_fp = f;
+  r = run_op (op);
+  bound_fp = 0;
   return r;
 }
 
@@ -78,6 +95,10 @@ string bp_oid (string path) {
 void create (mixed s) {
   string key, ops;
   int n;
+#ifdef C20_SIMUL
+  // driver start: neither the master nor the registry exist yet; later calls are reload_object(simul_efun object)
+  if (!find_object (REG)) { oid = "se"; return; }
+#endif
   if (stringp (s)) oid = s;
   announce ();
   REG->snap ();
@@ -92,11 +113,13 @@ void create (mixed s) {
 
 string do_op (string s) {
   string *w;
-  mixed r, e, fpv;
+  mixed r, e, fpv, bf;
   object o;
   w = explode (s, ",");
   r = 0;
   e = 0;
+  bf = bound_fp;
+  bound_fp = 0;
   switch (w[0]) {
   case "seteuid":
     if (w[1][0..1] == "i:") e = catch (r = seteuid (to_int (w[1][2..])));
@@ -107,11 +130,28 @@ string do_op (string s) {
     if (!o) r = "nobj";
     else e = catch (r = export_uid (o));
     break;
+  case "call": case "calla": case "tellroom":
+    // other efuns that reach load_object through find_or_load_object with this object as current_object: call_other on a
+    // file name (also inside an array of targets), tell_room on a file name.  Same expectations as `load` (the plugin
+    // compares them with the model's load op)
+    o = find_object (w[1]);
+    if ((!o || !stringp (o->my_oid ())) && REG->get (bp_oid (w[1]))) { r = "nobj"; break; }
+    if (w[0] == "call") e = catch (call_other (w[1], "my_oid"));
+    else if (w[0] == "calla") e = catch (call_other (({ w[1] }), "my_oid"));
+    else e = catch (tell_room (w[1], ""));
+    o = find_object (w[1]);
+    // "could not find the object" of these efuns = the 0 of load_object; the errors of load_object itself stay errors
+    if (e && canon_err (e) != "*Can't_load_objects_when_no_effective_user." && canon_err (e) != "*policy_error") e = 0;
+    if (!e && o) {
+      if (!stringp (o->my_oid ())) o->announce ();
+      r = o->my_oid ();
+    }
+    break;
   case "load":
     o = find_object (w[1]);
     // the harness never lets two live objects share a registry id
     if ((!o || !stringp (o->my_oid ())) && REG->get (bp_oid (w[1]))) { r = "nobj"; break; }
-    e = catch (o = load_object (w[1]));
+    e = catch (o = (bf ? evaluate (bf) : load_object (w[1])));
     if (!e && o) {
       if (!stringp (o->my_oid ())) o->announce ();   // half-made object left by a failed load: initialise late
       r = o->my_oid ();
@@ -120,7 +160,7 @@ string do_op (string s) {
   case "clone":
     if (member_array (w[1], RESERVED) != -1 || REG->get (w[1])) { r = "nobj"; break; }   // reserved or taken id
     if (!find_object (w[2]) && REG->get (bp_oid (w[2]))) { r = "nobj"; break; }
-    e = catch (o = clone_object (w[2], w[1]));
+    e = catch (o = (bf ? evaluate (bf) : clone_object (w[2], w[1])));
     if (!e && o) r = o->my_oid ();
     break;
   case "via":   // via,<oid>,<op...>: evaluate a function pointer made by <oid>; the op runs in the OWNER's context
@@ -133,18 +173,35 @@ string do_op (string s) {
     REG->leave ();
     if (!e) r = us (geteuid (fpv));      // geteuid(function) = euid of the owner
     break;
+  case "bind":  // bind,<oid>,load,<path> | bind,<oid>,clone,<newoid>,<path>
+    o = REG->get (w[1]);
+    if (!o || sizeof (w) < 4 || (w[2] != "load" && w[2] != "clone") || (w[2] == "clone" && sizeof (w) < 5)) { r = "nobj"; break; }
+    // (load_object is the efun find_object with its flag preset: an efun POINTER to it would be a plain find_object)
+    if (w[2] == "load") fpv = (: find_object, w[3], 1 :);
+    else fpv = (: clone_object, w[4], w[3] :);
+    e = catch (fpv = bind (fpv, o));          // master valid_bind (this_object(), this_object(), o) unless o is this object
+    if (e) break;
+    REG->snap ();
+    REG->enter ();
+    e = catch (o->run_bound (implode (w[2..], ","), fpv));
+    REG->leave ();
+    if (!e) r = us (geteuid (fpv));          // geteuid(function) = euid of the NEW owner
+    break;
   case "dest":
     o = REG->get (w[1]);
     if (!o || REG->depth () > 0) r = "nobj";   // not from inside a create() script
     else if (w[1] == "m") {
-      // destruct of the master: the driver loads a new master (a load on behalf of this object) and makes it root
+      // destruct of the master: the driver loads a new master (a load on behalf of this object) and makes it root;
+      // a master without get_root_uid() is not reloaded (its uids would come from an unlogged creator_file answer)
+      if (!function_exists ("get_root_uid", o)) { r = "nobj"; break; }
       e = catch (destruct (o));
       if (!e) {
         o = master ();
-        VL ("new m " + file_name (o) + " " + us (getuid (o)) + " " + us (geteuid (o)));
+        VL ("new m /c20/master " + us (getuid (o)) + " " + us (geteuid (o)));   // file name: same for all master variants
         r = 1;
       }
     }
+    else if (w[1] == "se") { e = catch (destruct (o)); r = 1; }   // the driver refuses: error
     else { REG->unreg (w[1]); destruct (o); r = 1; }
     break;
   case "reload":
